@@ -60,6 +60,16 @@ M = {
         }"""),
     "rsh_swap": ("src/modules/xrcmd.c", "    if (write(s, locuser, strlen(locuser) + 1) < 0\n       || write(s, remuser, strlen(remuser) + 1) < 0", "    if (write(s, remuser, strlen(remuser) + 1) < 0\n       || write(s, locuser, strlen(locuser) + 1) < 0"),
     "rsh_port_nonul": ("src/modules/xrcmd.c", "        if (write(s, num, strlen(num) + 1) != strlen(num) + 1) {", "        if (write(s, num, strlen(num)) != strlen(num)) {"),
+    # xrcmd's connection set-up (harness/xrcmd_harness.c + scripted peer with busy ports)
+    "xr_port_before_bind": ("src/modules/xrcmd.c", "        listen(s2, 1);\n        snprintf(num, sizeof(num), \"%d\", lport);", "        snprintf(num, sizeof(num), \"%d\", lport + 1);\n        listen(s2, 1);"),
+    "xr_no_decrement": ("src/modules/xrcmd.c", "        if (errno == EADDRINUSE) {\n            lport--;\n            continue;", "        if (errno == EADDRINUSE) {\n            continue;"),
+    "xr_backoff_lt": ("src/modules/xrcmd.c", "errno == ECONNREFUSED && timo <= 16", "errno == ECONNREFUSED && timo < 16"),
+    "xr_any_source_port": ("src/modules/xrcmd.c", "            from.sin_port >= IPPORT_RESERVED ||\n", ""),
+    "xr_leak_s2": ("src/modules/xrcmd.c", "            err(\"%p: %S: rcmd: xpoll: protocol failure in circuit setup\\n\", ahost);\n          (void) close(s2);", "            err(\"%p: %S: rcmd: xpoll: protocol failure in circuit setup\\n\", ahost);"),
+    "xr_plain_no_nul": ("src/modules/xrcmd.c", "        if (write(s, \"\", 1) != 1) {", "        if (write(s, \"\", 0) != 0) {"),
+    "xr_listen_after_write": ("src/modules/xrcmd.c", "        listen(s2, 1);\n        snprintf(num, sizeof(num), \"%d\", lport);\n        if (write(s, num, strlen(num) + 1) != strlen(num) + 1) {", "        snprintf(num, sizeof(num), \"%d\", lport);\n        if (listen(s2, 1), write(s, num, strlen(num) + 1) != strlen(num) + 1) {"),
+    "xr_write_before_connect": ("src/modules/xrcmd.c", "        rv = connect(s, (struct sockaddr *) &sin, sizeof(sin));", "        if (write(s, locuser, 0) < 0) { }\n        rv = connect(s, (struct sockaddr *) &sin, sizeof(sin));"),
+    "xr_reply_any": ("src/modules/xrcmd.c", "    if (c != 0) {\n        /* retrieve error string", "    if (c != 0 && c != 1) {\n        /* retrieve error string"),
     # repairs
     "fix_d10": ("src/common/pipecmd.c", "            p++;\n            switch (*p) {", "            p++;\n            if (*p == '\\0') {\n                xstrcatchar (&str, '%');\n                break;\n            }\n            switch (*p) {"),
     "fix_d11": ("src/common/pipecmd.c", "    char *str = NULL;\n\n    p = arg;", "    char *str = Strdup (\"\");\n\n    p = arg;"),
@@ -69,7 +79,7 @@ M = {
 def main():
     prop = sys.argv[1]
     for name in sys.argv[2:]:
-        dst = "/var/tmp/mutrepo_" + prop
+        dst = "/var/tmp/mutrepo_%s_%d" % (prop, os.getpid())
         shutil.rmtree(dst, ignore_errors=True)
         subprocess.run(["cp", "-a", "/repo", dst], check=True)
         for part in name.split("+"):
